@@ -6,6 +6,7 @@ import (
 	"go/token"
 	"go/types"
 	"regexp/syntax"
+	"strings"
 
 	"golang.org/x/tools/go/ssa"
 )
@@ -647,7 +648,73 @@ func (ix *idxProver) indexOK(X, idx ssa.Value, at *ssa.BasicBlock) (bool, string
 }
 
 func (ix *idxProver) isSortComparator(fn *ssa.Function) bool {
-	for _, mc := range closureSites(fn) {
+	sites := closureSites(fn)
+	if fn.Parent() == nil && fn.Signature.Recv() != nil {
+		// a method used as a method value (`byVersion(vs).less`): every wrapper go/ssa makes for it
+		for _, f := range ix.p.Funcs {
+			eachInstr(f, func(in ssa.Instruction) {
+				mc, ok := in.(*ssa.MakeClosure)
+				if !ok {
+					return
+				}
+				w, ok := mc.Fn.(*ssa.Function)
+				if !ok || !strings.Contains(w.Synthetic, "bound method wrapper") {
+					return
+				}
+				for _, ci := range callsIn(w) {
+					if ci.Common().StaticCallee() == fn {
+						sites = append(sites, mc)
+					}
+				}
+			})
+		}
+		// and nothing else calls it with indices of its own
+		for _, site := range ix.p.callersOf(fn) {
+			if !strings.Contains(site.Parent().Synthetic, "bound method wrapper") {
+				return false
+			}
+		}
+		if len(sites) == 0 {
+			return false
+		}
+		// each such value is the comparator of a sort of the receiver itself
+		for _, mc := range sites {
+			okUse := false
+			if refs := mc.Referrers(); refs != nil {
+				for _, r := range *refs {
+					cl, ok := r.(*ssa.Call)
+					if !ok || !(isFunc(calleeObj(cl), "sort", "Slice") || isFunc(calleeObj(cl), "sort", "SliceStable")) {
+						continue
+					}
+					sorted := cl.Call.Args[0]
+					if mi, ok := sorted.(*ssa.MakeInterface); ok {
+						sorted = mi.X
+					}
+					strip := func(v ssa.Value) ssa.Value {
+						for {
+							switch x := v.(type) {
+							case *ssa.ChangeType:
+								v = x.X
+								continue
+							case *ssa.Convert:
+								v = x.X
+								continue
+							}
+							return canon(v)
+						}
+					}
+					if len(mc.Bindings) == 1 && strip(mc.Bindings[0]) == strip(sorted) {
+						okUse = true
+					}
+				}
+			}
+			if !okUse {
+				return false
+			}
+		}
+		return true
+	}
+	for _, mc := range sites {
 		if refs := mc.Referrers(); refs != nil {
 			for _, r := range *refs {
 				if cl, ok := r.(*ssa.Call); ok {
